@@ -255,19 +255,27 @@ def body_mesh_req(env):
         codes = {'A': codeA, 'B': codeB}
 
         def mk(nm):
-            return StubSelf(name=nm, id=0, has_rodded=True, _estimated_T_out=700.0, region=[StubSelf(_conv_approx=False), StubSelf(_conv_approx=False)])
+            return StubSelf(name=nm, id=0, has_rodded=True, _estimated_T_out=700.0, flow_rate=1.0, total_power=1.0e5,
+                            region=[StubSelf(_conv_approx=False), StubSelf(_conv_approx=False)])
 
         def crit(asm, t_in, t_out, adiabatic):
             approx = asm.region[0]._conv_approx
             return dzs[asm.name][1 if approx else 0], codes[asm.name]
         res = {}
-        for uni, names in (('X', ['A', 'B']), ('Y', ['B'])):
+        for uni, names in (('X', ['A', 'B']), ('Y', ['B']), ('Z', ['A', 'A', 'B', 'B'])):
             asms = [mk(nm) for nm in names]
             s_ = StubSelf(assemblies=asms, inlet_temp=600.0, _is_adiabatic=False,
                           _options={'conv_approx': True, 'conv_approx_dz_cutoff': cutoff})
             with env.patch([], extra={(rm.dassh.assembly, 'calculate_min_dz'): crit}):
                 rm.Reactor._setup_asm_axial_mesh_req(s_)
             res[uni] = (s_.min_dz['dz'][-1], [reg._conv_approx for reg in asms[-1].region])
+            # the requirement recorded for an assembly is the one of the wall model that assembly is left with (identical
+            # twins included): a relaxed requirement without the model switch would let the step exceed the real limit
+            for i, a_ in enumerate(asms):
+                flags = [reg._conv_approx for reg in a_.region]
+                env.holds('universe %s assembly %d (%s): all its regions use one wall model' % (uni, i, a_.name), len(set(flags)) == 1)
+                env.eq('universe %s assembly %d (%s): recorded requirement = criterion value for the wall model it is left with' % (uni, i, a_.name),
+                       s_.min_dz['dz'][i], dzs[a_.name][1 if flags[0] else 0], key='requirement_of_another_wall_model')
         env.eq('assembly B: same step requirement behind assembly A as alone', res['X'][0], res['Y'][0], key='setup_state_leaks_between_assemblies')
         env.holds('assembly B: same wall model behind assembly A as alone', res['X'][1] == res['Y'][1], key='setup_state_leaks_between_assemblies')
 
